@@ -1,6 +1,7 @@
-(* Table.Get on a table fresh from the writer: Bloom check, binary search over the sparse index (every 16th
-   entry offset, keys read back from the file bytes), then the bounded linear scan, returns exactly the entry
-   with that key (tombstone value dropped) or "not found". *)
+(* Table.Get on a table fresh from the writer, for every index spacing sp > 0 and every Bloom filter size:
+   Bloom check, binary search over the sparse index (every sp-th entry offset, keys read back from the file
+   bytes), then the bounded linear scan, returns exactly the entry with that key (tombstone value dropped) or
+   "not found". *)
 From RV Require Import Model.SstTable Proofs.C17_Codec.
 From Coq Require Import ZifyN ZifyNat ZifyBool.
 Open Scope N_scope.
@@ -251,41 +252,51 @@ Lemma eoff_total es : eoff es (length es) = blen (ser_entries es).
 Proof. unfold eoff. rewrite firstn_all. reflexivity. Qed.
 
 (* ------------------------------------------------------------------------------------------------------- *)
-(* Step 2: sampling every 16th offset                                                                        *)
+(* Step 2: sampling every sp-th offset (any spacing sp > 0)                                                  *)
 (* ------------------------------------------------------------------------------------------------------- *)
 
-Lemma sample_nth : forall l c j,
-  (c + 16 * j < length l)%nat -> nth j (sample c l) 0 = u32 (nth (c + 16 * j) l 0).
+Lemma sample_nth : forall sp l c j,
+  (0 < sp)%nat -> (c < sp)%nat ->
+  (c + sp * j < length l)%nat -> nth j (sample sp c l) 0 = u32 (nth (c + sp * j) l 0).
 Proof.
-  induction l as [|x r IH]; intros c j Hj; [cbn [length] in Hj; lia|].
+  intros sp l; induction l as [|x r IH]; intros c j Hsp Hc Hj; [cbn [length] in Hj; lia|].
   cbn [length] in Hj. destruct c as [|c].
-  - cbn [sample]. change (index_spacing - 1)%nat with 15%nat. destruct j as [|j].
-    + reflexivity.
-    + replace (0 + 16 * S j)%nat with (S (15 + 16 * j)) by lia. cbn [nth]. apply IH. lia.
-  - cbn [sample]. replace (S c + 16 * j)%nat with (S (c + 16 * j)) by lia. cbn [nth]. apply IH. lia.
+  - cbn [sample]. destruct j as [|j].
+    + rewrite Nat.mul_0_r. reflexivity.
+    + rewrite Nat.mul_succ_r in *.
+      replace (0 + (sp * j + sp))%nat with (S ((sp - 1) + sp * j)) by lia. cbn [nth]. apply IH; lia.
+  - cbn [sample]. replace (S c + sp * j)%nat with (S (c + sp * j)) by lia. cbn [nth]. apply IH; lia.
 Qed.
 
-Lemma sample_length : forall l c j,
-  (j < length (sample c l))%nat <-> (c + 16 * j < length l)%nat.
+Lemma sample_length : forall sp l c j,
+  (0 < sp)%nat -> (c < sp)%nat ->
+  ((j < length (sample sp c l))%nat <-> (c + sp * j < length l)%nat).
 Proof.
-  induction l as [|x r IH]; intros c j.
+  intros sp l; induction l as [|x r IH]; intros c j Hsp Hc.
   - cbn [sample length]. lia.
   - destruct c as [|c].
-    + cbn [sample length]. change (index_spacing - 1)%nat with 15%nat. destruct j as [|j]; [lia|].
-      specialize (IH 15%nat j). lia.
-    + cbn [sample length]. specialize (IH c j). lia.
+    + cbn [sample length]. destruct j as [|j]; [rewrite Nat.mul_0_r; lia|].
+      assert (Hc' : (sp - 1 < sp)%nat) by lia.
+      specialize (IH (sp - 1)%nat j Hsp Hc'). rewrite Nat.mul_succ_r. lia.
+    + cbn [sample length]. assert (Hc' : (c < sp)%nat) by lia. specialize (IH c j Hsp Hc'). lia.
 Qed.
 
-Lemma index_of_bound es j : (j < length (index_of es))%nat <-> (16 * j < length es)%nat.
-Proof. unfold index_of. rewrite sample_length, entry_offsets_length. lia. Qed.
-
-Lemma index_of_nth es j :
-  blen (ser_entries es) < 4294967296 -> (16 * j < length es)%nat ->
-  nth j (index_of es) 0 = eoff es (16 * j).
+Lemma index_of_bound tp es j :
+  (0 < tp_spacing tp)%nat ->
+  ((j < length (index_of tp es))%nat <-> (tp_spacing tp * j < length es)%nat).
 Proof.
-  intros Hsz Hj. unfold index_of. rewrite sample_nth by (rewrite entry_offsets_length; lia).
-  change (0 + 16 * j)%nat with (16 * j)%nat. rewrite entry_offsets_nth by exact Hj.
-  rewrite N.add_0_l. apply u32_small. pose proof (eoff_le_total es (16 * j)). lia.
+  intros Hsp. unfold index_of. rewrite (sample_length _ _ 0%nat j Hsp Hsp), entry_offsets_length. lia.
+Qed.
+
+Lemma index_of_nth tp es j :
+  (0 < tp_spacing tp)%nat ->
+  blen (ser_entries es) < 4294967296 -> (tp_spacing tp * j < length es)%nat ->
+  nth j (index_of tp es) 0 = eoff es (tp_spacing tp * j).
+Proof.
+  intros Hsp Hsz Hj. unfold index_of.
+  rewrite (sample_nth _ _ 0%nat j Hsp Hsp) by (rewrite entry_offsets_length; lia).
+  change (0 + tp_spacing tp * j)%nat with (tp_spacing tp * j)%nat. rewrite entry_offsets_nth by exact Hj.
+  rewrite N.add_0_l. apply u32_small. pose proof (eoff_le_total es (tp_spacing tp * j)). lia.
 Qed.
 
 (* ------------------------------------------------------------------------------------------------------- *)
@@ -353,14 +364,17 @@ Lemma Forall_skipn_ok (es : list entry) i : Forall entry_ok es -> Forall entry_o
 Proof. intros H. rewrite <- (firstn_skipn i es) in H. apply Forall_app in H. apply H. Qed.
 
 Section Get.
+  Variable tp : tparams.
   Variable es : list entry.
   Variable key : bytes.
+  Hypothesis Hsp : (0 < tp_spacing tp)%nat.
   Hypothesis Hok : Forall entry_ok es.
   Hypothesis Hs : keys_sorted es = true.
   Hypothesis Hsz : blen (ser_entries es) < 4294967296.
 
-  Local Notation m := (length (index_of es)).
-  Let c (h : nat) : comparison := bcmp (kat es (16 * h)) key.
+  Local Notation sp := (tp_spacing tp).
+  Local Notation m := (length (index_of tp es)).
+  Let c (h : nat) : comparison := bcmp (kat es (sp * h)) key.
   Let cmpf : N -> option (option comparison) :=
     fun o => match read_key_at (ser_entries es) o with
              | None => None
@@ -368,25 +382,31 @@ Section Get.
              | Some (Some k) => Some (Some (bcmp k key))
              end.
 
-  (* nothing before block fi / nothing from block fi+1 on has the key *)
+  (* nothing before block fi / nothing from block fi+1 on has the key; block fi = entries sp*fi .. sp*(fi+1)-1 *)
   Definition before_ok (fi : nat) : Prop :=
-    forall p, (p < 16 * fi)%nat -> (p < length es)%nat -> kat es p <> key.
+    forall p, (p < sp * fi)%nat -> (p < length es)%nat -> kat es p <> key.
   Definition after_ok (fi : nat) : Prop :=
-    forall p, (16 * S fi <= p)%nat -> (p < length es)%nat -> kat es p <> key.
+    forall p, (sp * S fi <= p)%nat -> (p < length es)%nat -> kat es p <> key.
 
-  Lemma m_bound j : (j < m)%nat <-> (16 * j < length es)%nat.
-  Proof. apply index_of_bound. Qed.
+  Lemma m_bound j : (j < m)%nat <-> (sp * j < length es)%nat.
+  Proof. apply index_of_bound. exact Hsp. Qed.
 
-  Lemma cmpf_at h : (h < m)%nat -> cmpf (nth h (index_of es) 0) = Some (Some (c h)).
+  Lemma sp_mul_lt h h' : (h' < h)%nat -> (sp * h' + sp <= sp * h)%nat.
+  Proof.
+    intros Hlt. rewrite <- Nat.mul_succ_r. apply Nat.mul_le_mono_l. lia.
+  Qed.
+
+  Lemma cmpf_at h : (h < m)%nat -> cmpf (nth h (index_of tp es) 0) = Some (Some (c h)).
   Proof.
     intros Hh. apply m_bound in Hh. unfold cmpf.
-    rewrite (index_of_nth es h Hsz Hh), (read_key_at_off es (16 * h) Hok Hh). reflexivity.
+    rewrite (index_of_nth tp es h Hsp Hsz Hh), (read_key_at_off es (sp * h) Hok Hh). reflexivity.
   Qed.
 
   Lemma c_mono h h' : (h' < h)%nat -> (h < m)%nat -> c h = Lt -> c h' = Lt.
   Proof.
     intros Hlt Hh Hc. apply m_bound in Hh. unfold c in *.
-    apply (bcmp_lt_trans _ (kat es (16 * h))); [|exact Hc].
+    apply (bcmp_lt_trans _ (kat es (sp * h))); [|exact Hc].
+    pose proof (sp_mul_lt h h' Hlt) as Hmul.
     apply keys_sorted_nth; [exact Hs|lia|exact Hh].
   Qed.
 
@@ -405,41 +425,44 @@ Section Get.
       split; [apply m_bound; exact Hr|]. split.
       + intros p Hp Hpl. rewrite <- Hc. apply bcmp_lt_neq. apply keys_sorted_nth; [exact Hs|exact Hp|exact Hr].
       + intros p Hp Hpl. rewrite <- Hc. intros Heq. symmetry in Heq. revert Heq. apply bcmp_lt_neq.
+        rewrite Nat.mul_succ_r in Hp.
         apply keys_sorted_nth; [exact Hs|lia|exact Hpl].
     - split; [lia|]. split.
-      + intros p Hp Hpl. destruct r as [|r]; [cbn [Nat.pred] in Hp; lia|]. cbn [Nat.pred] in Hp.
-        assert (Hr : (16 * r < length es)%nat) by (apply m_bound; lia).
+      + intros p Hp Hpl. destruct r as [|r]; [cbn [Nat.pred] in Hp; rewrite Nat.mul_0_r in Hp; lia|].
+        cbn [Nat.pred] in Hp.
+        assert (Hr : (sp * r < length es)%nat) by (apply m_bound; lia).
         assert (Hc : c r = Lt) by (apply Hlo; lia). unfold c in Hc.
-        apply bcmp_lt_neq. apply (bcmp_lt_trans _ (kat es (16 * r))); [|exact Hc].
+        apply bcmp_lt_neq. apply (bcmp_lt_trans _ (kat es (sp * r))); [|exact Hc].
         apply keys_sorted_nth; [exact Hs|exact Hp|exact Hr].
-      + intros p Hp Hpl. assert (Hp' : (16 * r <= p)%nat) by lia.
+      + intros p Hp Hpl. assert (Hp' : (sp * r <= p)%nat).
+        { destruct r as [|r]; [rewrite Nat.mul_0_r; lia|]. cbn [Nat.pred] in Hp. exact Hp. }
         assert (Hr : (r < m)%nat) by (apply m_bound; lia).
         assert (Hc : c r = Gt).
         { specialize (Hhi r (le_n r) Hr). specialize (Hex0 eq_refl Hr). destruct (c r); congruence. }
         unfold c in Hc. apply bcmp_gt_lt in Hc.
         intros Heq. symmetry in Heq. revert Heq. apply bcmp_lt_neq.
-        assert (Hx : (16 * r = p \/ 16 * r < p)%nat) by lia. destruct Hx as [<-|Hx]; [exact Hc|].
-        apply (bcmp_lt_trans _ (kat es (16 * r))); [exact Hc|].
+        assert (Hx : (sp * r = p \/ sp * r < p)%nat) by lia. destruct Hx as [<-|Hx]; [exact Hc|].
+        apply (bcmp_lt_trans _ (kat es (sp * r))); [exact Hc|].
         apply keys_sorted_nth; [exact Hs|exact Hx|exact Hpl].
   Qed.
 
   Hypothesis Hne : es <> [].
 
   Lemma m_pos : (0 < m)%nat.
-  Proof. apply m_bound. destruct es; [congruence|cbn [length]; lia]. Qed.
+  Proof. apply m_bound. rewrite Nat.mul_0_r. destruct es; [congruence|cbn [length]; lia]. Qed.
 
   Lemma search_index_spec :
-    exists fi, search_index true (index_of es) (ser_entries es) key =
-                 SRange (nth fi (index_of es) 0)
-                        (if Nat.eqb fi (m - 1) then max_int64 else nth (S fi) (index_of es) 0) /\
+    exists fi, search_index true (index_of tp es) (ser_entries es) key =
+                 SRange (nth fi (index_of tp es) 0)
+                        (if Nat.eqb fi (m - 1) then max_int64 else nth (S fi) (index_of tp es) 0) /\
                (fi < m)%nat /\ before_ok fi /\ after_ok fi.
   Proof.
     pose proof m_pos as Hm.
-    assert (Hnil : index_of es <> []).
+    assert (Hnil : index_of tp es <> []).
     { intros E. rewrite E in Hm. cbn [length] in Hm. lia. }
-    unfold search_index, search_index_with. destruct (index_of es) as [|o0 offs0] eqn:Eoffs; [congruence|].
+    unfold search_index, search_index_with. destruct (index_of tp es) as [|o0 offs0] eqn:Eoffs; [congruence|].
     cbv iota. rewrite <- Eoffs. rewrite <- Eoffs in Hm. clear Hnil Eoffs o0 offs0. fold cmpf.
-    destruct (bsearch_top cmpf (index_of es) c m cmpf_at c_mono) as (r & Hbs & Hrm & Hlo & Hhi).
+    destruct (bsearch_top cmpf (index_of tp es) c m cmpf_at c_mono) as (r & Hbs & Hrm & Hlo & Hhi).
     rewrite Hbs.
     destruct (Nat.ltb r m) eqn:Elt.
     - apply Nat.ltb_lt in Elt. pose proof (cmpf_at r Elt) as Hcr. unfold cmpf in Hcr. rewrite Hcr. clear Hcr. destruct (c r) eqn:Ecr.
@@ -457,94 +480,96 @@ Section Get.
   Lemma scan_after_search fi :
     (fi < m)%nat -> before_ok fi -> after_ok fi ->
     let body := ser_entries es in
-    let st := nth fi (index_of es) 0 in
-    let en := if Nat.eqb fi (m - 1) then max_int64 else nth (S fi) (index_of es) 0 in
+    let st := nth fi (index_of tp es) 0 in
+    let en := if Nat.eqb fi (m - 1) then max_int64 else nth (S fi) (index_of tp es) 0 in
     (if st <=? blen body then scan_get (S (length body)) (skipn (N.to_nat st) body) st en key else GPanic)
     = get_spec es key.
   Proof.
     intros Hfi Hb Ha body st en.
-    assert (Hfi' : (16 * fi < length es)%nat) by (apply m_bound; exact Hfi).
-    assert (Hst : st = eoff es (16 * fi)) by (apply index_of_nth; assumption).
-    pose proof (eoff_le_total es (16 * fi)) as Hle.
+    assert (Hfi' : (sp * fi < length es)%nat) by (apply m_bound; exact Hfi).
+    assert (Hst : st = eoff es (sp * fi)) by (apply index_of_nth; assumption).
+    pose proof (eoff_le_total es (sp * fi)) as Hle.
     replace (st <=? blen body) with true by (subst body; lia).
     rewrite Hst. subst body. rewrite skipn_off.
     rewrite scan_get_block.
     2: { apply Forall_skipn_ok. exact Hok. }
     2: { rewrite skipn_length. pose proof (ser_entries_len es). lia. }
-    set (a := firstn 16 (skipn (16 * fi) es)).
-    set (b := skipn 16 (skipn (16 * fi) es)).
-    assert (Hab : skipn (16 * fi) es = a ++ b) by (symmetry; apply firstn_skipn).
+    set (a := firstn sp (skipn (sp * fi) es)).
+    set (b := skipn sp (skipn (sp * fi) es)).
+    assert (Hab : skipn (sp * fi) es = a ++ b) by (symmetry; apply firstn_skipn).
     assert (Hb_none : forall e, In e b -> e_key e <> key).
     { intros e Hin. subst b. rewrite <- skipn_add in Hin.
-      destruct (In_skipn_nth _ _ _ Hin) as (p & Hp1 & Hp2 & ->). apply Ha; [lia|exact Hp2]. }
-    assert (Hpre_none : forall e, In e (firstn (16 * fi) es) -> e_key e <> key).
+      destruct (In_skipn_nth _ _ _ Hin) as (p & Hp1 & Hp2 & ->).
+      apply Ha; [rewrite Nat.mul_succ_r; exact Hp1|exact Hp2]. }
+    assert (Hpre_none : forall e, In e (firstn (sp * fi) es) -> e_key e <> key).
     { intros e Hin. destruct (In_firstn_nth _ _ _ Hin) as (p & Hp1 & Hp2 & ->). apply Hb; assumption. }
     assert (Hfind : find_key key es = find_key key a).
-    { rewrite <- (firstn_skipn (16 * fi) es) at 1. rewrite (find_key_app_none_l _ _ _ Hpre_none), Hab.
+    { rewrite <- (firstn_skipn (sp * fi) es) at 1. rewrite (find_key_app_none_l _ _ _ Hpre_none), Hab.
       apply find_key_app_none_r. exact Hb_none. }
     unfold get_spec at 2. rewrite Hfind. fold (get_spec a key).
     destruct (Nat.eqb fi (m - 1)) eqn:Elast.
     - subst en. rewrite block_all.
       + unfold get_spec. rewrite Hab, (find_key_app_none_r _ _ _ Hb_none). reflexivity.
-      + pose proof (ser_entries_split es (16 * fi)) as Hsp.
-        assert (Hbl : blen (ser_entries es) = eoff es (16 * fi) + blen (ser_entries (skipn (16 * fi) es))).
-        { rewrite Hsp at 1. rewrite blen_app. reflexivity. }
+      + pose proof (ser_entries_split es (sp * fi)) as Hsplit.
+        assert (Hbl : blen (ser_entries es) = eoff es (sp * fi) + blen (ser_entries (skipn (sp * fi) es))).
+        { rewrite Hsplit at 1. rewrite blen_app. reflexivity. }
         unfold max_int64. lia.
     - apply Nat.eqb_neq in Elast.
-      assert (Hfi2 : (16 * S fi < length es)%nat) by (apply m_bound; lia).
-      assert (Hen : en = eoff es (16 * fi) + blen (ser_entries a)).
-      { subst en. rewrite (index_of_nth es (S fi) Hsz Hfi2).
-        replace (16 * S fi)%nat with (16 * fi + 16)%nat by lia. apply eoff_add. }
+      assert (Hfi2 : (sp * S fi < length es)%nat) by (apply m_bound; lia).
+      assert (Hen : en = eoff es (sp * fi) + blen (ser_entries a)).
+      { subst en. rewrite (index_of_nth tp es (S fi) Hsp Hsz Hfi2).
+        rewrite Nat.mul_succ_r. apply eoff_add. }
       rewrite Hen, Hab, block_app_exact. reflexivity.
   Qed.
 End Get.
 
-Lemma body_of_write_table es : body_of (write_table es) = ser_entries es.
+Lemma body_of_write_table tp es : body_of (write_table tp es) = ser_entries es.
 Proof. unfold body_of, write_table, ser_table. cbn [t_esize t_file]. apply firstn_blen. Qed.
 
-Lemma table_get_empty key : table_get (write_table []) key = get_spec [] key.
+Lemma table_get_empty tp key : table_get (write_table tp []) key = get_spec [] key.
 Proof.
   unfold table_get, table_get_gen, table_meta. cbn [write_table t_meta].
-  destruct (bf_might_have (bloom_of []) key); reflexivity.
+  destruct (bf_might_have (bloom_of tp []) key); reflexivity.
 Qed.
 
 (* the search path alone (no Bloom filter involved): it never panics or errs and finds exactly the entry *)
-Theorem get_via_index_is_find : forall es key,
-  run_ok es -> es <> [] ->
+Theorem get_via_index_is_find : forall tp es key,
+  (0 < tp_spacing tp)%nat -> run_ok es -> es <> [] ->
   let body := ser_entries es in
-  match search_index true (index_of es) body key with
+  match search_index true (index_of tp es) body key with
   | SPanic => GPanic
   | SErr => GErr
   | SRange st en =>
       if st <=? blen body then scan_get (S (length body)) (skipn (N.to_nat st) body) st en key else GPanic
   end = get_spec es key.
 Proof.
-  intros es key (Hok & Hs & Hsz) Hne body. subst body.
-  destruct (search_index_spec es key Hok Hs Hsz Hne) as (fi & Hsi & Hfi & Hb & Ha).
+  intros tp es key Hsp (Hok & Hs & Hsz) Hne body. subst body.
+  destruct (search_index_spec tp es key Hsp Hok Hs Hsz Hne) as (fi & Hsi & Hfi & Hb & Ha).
   rewrite Hsi. apply scan_after_search; assumption.
 Qed.
 
-Theorem table_get_is_find_gen : forall es key,
-  run_ok es ->
-  (forall e, In e es -> bf_might_have (bloom_of es) (e_key e) = true) ->
-  table_get (write_table es) key = get_spec es key.
+(* for every writer spacing > 0 and every Bloom filter without false negatives on the written keys *)
+Theorem table_get_is_find_gen : forall tp es key,
+  (0 < tp_spacing tp)%nat -> run_ok es ->
+  (forall e, In e es -> bf_might_have (bloom_of tp es) (e_key e) = true) ->
+  table_get (write_table tp es) key = get_spec es key.
 Proof.
-  intros es key Hrun Hbloom.
+  intros tp es key Hsp Hrun Hbloom.
   destruct es as [|e0 es0] eqn:Ees; [apply table_get_empty|]. rewrite <- Ees in *.
   assert (Hne : es <> []) by (rewrite Ees; discriminate). clear Ees e0 es0.
   unfold table_get, table_get_gen, table_meta. rewrite body_of_write_table. cbn [write_table t_meta].
-  destruct (bf_might_have (bloom_of es) key) eqn:Ebf.
+  destruct (bf_might_have (bloom_of tp es) key) eqn:Ebf.
   - apply get_via_index_is_find; assumption.
   - unfold get_spec. rewrite find_key_none; [reflexivity|].
     intros e Hin Heq. rewrite <- Heq, (Hbloom e Hin) in Ebf. discriminate.
 Qed.
 
 (* in particular Get never panics and never returns an error on a well-formed run *)
-Corollary table_get_total : forall es key,
-  run_ok es ->
-  (forall e, In e es -> bf_might_have (bloom_of es) (e_key e) = true) ->
-  table_get (write_table es) key <> GPanic /\ table_get (write_table es) key <> GErr.
+Corollary table_get_total : forall tp es key,
+  (0 < tp_spacing tp)%nat -> run_ok es ->
+  (forall e, In e es -> bf_might_have (bloom_of tp es) (e_key e) = true) ->
+  table_get (write_table tp es) key <> GPanic /\ table_get (write_table tp es) key <> GErr.
 Proof.
-  intros es key Hrun Hbloom. rewrite (table_get_is_find_gen es key Hrun Hbloom).
+  intros tp es key Hsp Hrun Hbloom. rewrite (table_get_is_find_gen tp es key Hsp Hrun Hbloom).
   unfold get_spec. destruct (find_key key es); split; discriminate.
 Qed.
